@@ -420,5 +420,7 @@ func c17(r *ev.Run) {
 	r.Assume("the hand-over protocol is a synchronous RPC: the driver plays the new process in lock-step; SIGTERM to self is replaced by a recorded call through the verif hook")
 	runAPIPart(r, "frames", false, nil, 10*time.Minute)
 	runAPIPart(r, "sequence", false, nil, 15*time.Minute)
+	c17Smoke(r)
 	r.Require("sequences", 500)
+	r.Require("smoke_listeners_handed_over", 1)
 }
